@@ -228,9 +228,57 @@ def check_uniform(ctx):
                     good = good and okr
                     term = F.fns[dr[0][4][-2]].blocks[dr[0][4][-1]]["term"] if dr else None
                     good = good and term is not None and any(t.get("s") == "bool" for t in term.get("targs", []))
-                ctx.check(good and picked == {True: 0, False: 1}, "R10.5", "UniformXo<Vec>/per-position-coin-picks-same-position-gene", "coin true -> first parent's gene, false -> second's", f.at(),
-                          bad_detail="closure must draw one random::<bool>() and return the first parent's gene of the pair on true, the second's on false: " + "; ".join(short(q.ret, 5) for q in cps))
-    K.either(ctx, vec_indexed, vec_zipped)
+                ctx.check(good and sorted(picked) == [False, True] and sorted(picked.values()) == [0, 1], "R10.5", "UniformXo<Vec>/per-position-coin-picks-same-position-gene", "one outcome of the coin takes the first parent's gene of the pair, the other the second's", f.at(),
+                          bad_detail="closure must draw one random::<bool>() and return one parent's gene of the pair on true and the other parent's on false: " + "; ".join(short(q.ret, 5) for q in cps))
+
+    def vec_loop(ctx):
+        """the same clauses for the explicit loop `for (a, b) in first.iter().zip(&second) { out.push(if coin { a } else { b }.clone()) } Ok(out)`:
+        position-wise by construction (zip pairs equal positions; equal lengths are established), one coin and one push per position"""
+        F = ctx.F
+        f = ctx.fn(UX + R % "[std::vec::Vec<T>; 2]")
+        side = lambda i: (lambda e: peel(e, ("Deref::deref", "[T]::iter", "IntoIterator::into_iter", "Vec::as_slice")) == G(i))
+        is_nx = lambda c: callee_is(c, "Iterator::next") and (match(c[3][0], Through(Call("IntoIterator::into_iter", Call("Iterator::zip", side(0), side(1), nargs=2), nargs=1))) or
+                                                             match(c[3][0], Through(Call("Iterator::zip", side(0), side(1), nargs=2))))
+        is_out = lambda e: callee_is(K.strip(e, calls=()), "Vec::with_capacity", "Vec::new")
+        good_all, seen, picked = True, set(), {}
+        for p in K.live(ctx.cpaths(f)):
+            g = len_guard(p)
+            if g == "different":
+                ok = is_err_return(p) and any(x[0] == "agg" and path_ends(x[2], "DifferentGenomeLength::DifferentGenomeLength") and is_len_of(x[3][0], 0) and is_len_of(x[3][1], 1) for x in subexprs(p.ret))
+                ctx.check(ok, "R10.1", "UniformXo<Vec>/length-mismatch->DifferentGenomeLength(len_a,len_b)", short(p.ret, 5), f.at())
+                continue
+            nx = [c for c in p.calls() if is_nx(c)]
+            if g != "equal" or len(nx) != 1 or len([c for c in p.calls() if callee_is(c, "Iterator::next")]) != 1:
+                good_all = False
+                continue
+            dr = [c for c in p.calls() if callee_is(c, "Rng::random")]
+            push = K.calls_of(p, "Vec::push", "Extend::extend", "Vec::insert", "Vec::extend_from_slice")
+            if K.discr_is(p, lambda o: o == nx[0], 0):
+                kind, pay = K.outcome(p)
+                good_all = good_all and kind == "ok" and pay is not None and is_out(pay) and not dr and not push
+                seen.add("done")
+                continue
+            item = ("field", nx[0], 0, "Some")
+            ok = p.end.startswith("loop:") and len(dr) == 1 and dr[0][3][0] == RNG and len(push) == 1 and callee_is(push[0], "Vec::push") and is_out(push[0][3][0])
+            coin = [cc for cc in p.conds if cc[0] == dr[0]] if dr else []
+            cs = p.calls()
+            ok = ok and len(coin) == 1 and cs.index(nx[0]) < cs.index(dr[0]) < cs.index(push[0])     # the coin is drawn inside the iteration (one per position)
+            if ok:
+                v = push[0][3][1]
+                ok = callee_is(v, "Clone::clone") and len(v[3]) == 1
+                src = K.strip(v[3][0], calls=()) if ok else None
+                ok = ok and src[0] == "field" and K.strip(src[1], calls=()) == item and src[2] in (0, 1)
+                term = F.fns[dr[0][4][-2]].blocks[dr[0][4][-1]]["term"]
+                ok = ok and any(t.get("s") == "bool" for t in term.get("targs", []))
+                if ok:
+                    picked[K.truth_of(coin[0][1])] = src[2]
+                    seen.add("push")
+            good_all = good_all and ok
+        ok = good_all and seen == {"done", "push"}
+        ctx.check(ok, "R10.5", "UniformXo<Vec>/collect(map(0..len,closure))-under-equal-length", "explicit loop over first.iter().zip(&second), one push per pair", f.at())
+        ctx.check(ok and sorted(picked) == [False, True] and sorted(picked.values()) == [0, 1], "R10.5", "UniformXo<Vec>/per-position-coin-picks-same-position-gene", "one outcome of the coin takes the first parent's gene of the pair, the other the second's", f.at(),
+                  bad_detail="each iteration must draw one random::<bool>() and push one parent's gene of the pair on true and the other parent's on false; extracted %s" % picked)
+    K.either(ctx, vec_indexed, lambda c: K.either(c, vec_zipped, vec_loop))
 
     def g_for_loop(ctx):
         F = ctx.F
